@@ -982,3 +982,40 @@ Proof.
       * apply K3. reflexivity.
       * rewrite (K1 (kept_flag_false _) NE'). unfold agents_series. now rewrite !map_map.
 Qed.
+
+(* ================================================================== the regenerated get / save / load *)
+Theorem get_d_model : forall h key index, get_d model_get_descr h key index = Some (get h key index).
+Proof.
+  intros h key index. unfold get_d, model_get_descr, get. destruct index as [idx|]; [|reflexivity].
+  cbn [get_run]. destruct (lookup key h) as [a|]; [|reflexivity].
+  cbn [String.eqb Ascii.eqb Bool.eqb andb]. rewrite orb_true_r.
+  cbn [cmp_eval]. change (ndim a + -1)%Z with (ndim a - 1)%Z.
+  destruct (negb (ndim a - 1 =? Z.of_nat (len idx))%Z); [reflexivity|].
+  destruct (norm_all idx (tl (shape a))) as [nidx|]; [|reflexivity].
+  cbn [String.eqb Ascii.eqb Bool.eqb]. destruct (hstack (map (descend nidx) (elems a))); reflexivity.
+Qed.
+
+Theorem get_d_of_descr : forall d, d = model_get_descr ->
+  forall h key index, get_d d h key index = Some (get h key index).
+Proof. intros d ->. exact get_d_model. Qed.
+
+Section PickleDescrProofs.
+  Variable bytes : Type.
+  Variable pickle : hist -> bytes.
+  Variable unpickle : bytes -> hist.
+
+  Theorem save_d_model : forall h, save_d bytes pickle model_save_descr h = Some (save bytes pickle h).
+  Proof. reflexivity. Qed.
+
+  Theorem load_d_model : forall s f,
+    load_d bytes unpickle model_load_descr s f = Some (load_file bytes unpickle s f).
+  Proof. reflexivity. Qed.
+
+  Theorem save_d_of_descr : forall d, d = model_save_descr ->
+    forall h, save_d bytes pickle d h = Some (save bytes pickle h).
+  Proof. intros d ->. exact save_d_model. Qed.
+
+  Theorem load_d_of_descr : forall d, d = model_load_descr ->
+    forall s f, load_d bytes unpickle d s f = Some (load_file bytes unpickle s f).
+  Proof. intros d ->. exact load_d_model. Qed.
+End PickleDescrProofs.
